@@ -244,7 +244,7 @@ def run_case(case, keep_log=False):
                     raise Violation("point_form", {"t": op["t"], "err": bm.maxabs(out - ref)}, i)
                 continue
             ta, tb = xf(op["ta"]), xf(op["tb"])
-            res = ex.raw(ta, tb, op["U"], op["A"], op.get("faults"), i)
+            res = ex.raw(ta, tb, op["U"], op["A"], op.get("faults"), i, op.get("targ"))
             for _ in range(op.get("rep", 0)):
                 ex.raw(ta, tb, op["U"], op["A"], None, i)
             err = bm.shape_ok(cfg, res)
